@@ -13,12 +13,22 @@ package main
 
 import (
 	"context"
+	"crypto/ecdsa"
+	"crypto/ed25519"
+	"crypto/elliptic"
+	"crypto/rand"
+	"crypto/rsa"
 	"crypto/sha256"
+	"crypto/tls"
+	"crypto/x509"
+	"crypto/x509/pkix"
 	"encoding/json"
 	"errors"
+	"math/big"
 	"os"
 	"slices"
 	"strconv"
+	"time"
 
 	"github.com/nspcc-dev/neo-go/pkg/crypto/hash"
 	"github.com/nspcc-dev/neo-go/pkg/crypto/keys"
@@ -55,7 +65,8 @@ type reqCase struct {
 	Minor    uint32   `json:"minor"`
 	TTL      uint32   `json:"ttl"`
 	Trusted  bool     `json:"trusted"`
-	Peer     string   `json:"peer"` // none | trusted | other_auth | no_auth
+	Peer     string   `json:"peer"`   // one of peerKinds
+	Forced   bool     `json:"forced"` // from the deterministic peer x request-shape matrix
 	Mut      string   `json:"mut"`
 	Base     bool     `json:"base"`    // the unmutated request was accepted by all three entry points
 	Changed  bool     `json:"changed"` // the mutation changed the wire encoding
@@ -148,22 +159,186 @@ var errPanic = errors.New("panic")
 
 func asStatus(err error, target *apistatus.SignatureVerification) bool { return errors.As(err, target) }
 
+// ---- peer contexts ---------------------------------------------------------------------------
+//
+// The fact of the model is "the peer connection is authenticated": the client presented, in the
+// TLS handshake, a certificate whose P-256 key the node bound to the connection (the node's
+// server credentials, cmd/neofs-node/mtls.go trustedPeerCredentials.ServerHandshake, then replace
+// grpc's credentials.TLSInfo by peerauth.AuthInfo).  Everything that merely looks like it is NOT
+// authenticated: plain TLS without a client certificate, a client certificate with a key the node
+// cannot bind (RSA, P-384, Ed25519), another AuthInfo implementation answering the same AuthType()
+// string, a pointer to / a wrapper around peerauth.AuthInfo, a peer without AuthInfo, no peer.
+
 type otherAuth struct{ credentials.CommonAuthInfo }
 
 func (otherAuth) AuthType() string { return "other" }
 
-func peerCtx(kind string, a *actor) context.Context {
-	ctx := context.Background()
-	switch kind {
-	case "trusted":
-		pk := a.key.PublicKey
-		return peer.NewContext(ctx, &peer.Peer{AuthInfo: peerauth.AuthInfo{PublicKey: (*keys.PublicKey)(&pk)}})
-	case "other_auth":
-		return peer.NewContext(ctx, &peer.Peer{AuthInfo: otherAuth{}})
-	case "no_auth":
-		return peer.NewContext(ctx, &peer.Peer{})
+// an unrelated AuthInfo implementation that answers the same AuthType() string as TLS
+type sameTypeAuth struct {
+	credentials.CommonAuthInfo
+	PublicKey *keys.PublicKey
+}
+
+func (sameTypeAuth) AuthType() string { return "tls" }
+
+// a wrapper embedding the real thing (all methods and fields promoted, different dynamic type)
+type wrapAuth struct{ peerauth.AuthInfo }
+
+type peerKind struct {
+	name    string
+	trusted bool // the fact: genuinely authenticated peer connection
+}
+
+var peerKinds = []peerKind{
+	{"none", false},             // no peer in the context
+	{"no_auth", false},          // peer without AuthInfo (insecure listener)
+	{"other_auth", false},       // AuthInfo of another kind, AuthType "other"
+	{"trusted", true},           // peerauth.AuthInfo with the bound key
+	{"trusted_nokey", true},     // zero peerauth.AuthInfo: the dynamic type is the authentication mark (NewAuthInfo never yields it)
+	{"hs_p256", true},           // handshake outcome: client certificate with a P-256 key
+	{"hs_nocert", false},        // handshake outcome: TLS, no client certificate -> plain credentials.TLSInfo
+	{"hs_rsa", false},           // handshake outcome: client certificate with an RSA key -> plain credentials.TLSInfo
+	{"hs_p384", false},          // ... P-384 key
+	{"hs_ed25519", false},       // ... Ed25519 key
+	{"tls_p256_unbound", false}, // credentials.TLSInfo carrying a P-256 certificate that was NOT bound by the node's credentials
+	{"same_type_auth", false},   // foreign AuthInfo implementation with AuthType() == "tls" (and a key field)
+	{"ptr_auth", false},         // *peerauth.AuthInfo
+	{"wrap_auth", false},        // struct embedding peerauth.AuthInfo
+}
+
+func kindByName(n string) peerKind {
+	return peerKinds[slices.IndexFunc(peerKinds, func(k peerKind) bool { return k.name == n })]
+}
+
+type peerEnv struct {
+	certP256, certRSA, certP384, certEd *x509.Certificate
+}
+
+func selfSignedCert(pub, priv any) *x509.Certificate {
+	tmpl := &x509.Certificate{SerialNumber: big.NewInt(33), Subject: pkix.Name{CommonName: "verif peer"},
+		NotBefore: time.Unix(1_700_000_000, 0), NotAfter: time.Unix(1_900_000_000, 0),
+		KeyUsage: x509.KeyUsageDigitalSignature, ExtKeyUsage: []x509.ExtKeyUsage{x509.ExtKeyUsageClientAuth}, BasicConstraintsValid: true}
+	der, err := x509.CreateCertificate(rand.Reader, tmpl, tmpl, pub, priv)
+	if err != nil {
+		panic(err)
 	}
-	return ctx
+	c, err := x509.ParseCertificate(der)
+	if err != nil {
+		panic(err)
+	}
+	return c
+}
+
+func newPeerEnv(a *actor) *peerEnv {
+	rk, err := rsa.GenerateKey(rand.Reader, 2048)
+	if err != nil {
+		panic(err)
+	}
+	ek, err := ecdsa.GenerateKey(elliptic.P384(), rand.Reader)
+	if err != nil {
+		panic(err)
+	}
+	edPub, edPriv, err := ed25519.GenerateKey(rand.Reader)
+	if err != nil {
+		panic(err)
+	}
+	return &peerEnv{certP256: selfSignedCert(&a.key.PublicKey, &a.key), certRSA: selfSignedCert(&rk.PublicKey, rk),
+		certP384: selfSignedCert(&ek.PublicKey, ek), certEd: selfSignedCert(edPub, edPriv)}
+}
+
+func tlsInfo(certs ...*x509.Certificate) credentials.TLSInfo {
+	return credentials.TLSInfo{State: tls.ConnectionState{HandshakeComplete: true, Version: tls.VersionTLS13, PeerCertificates: certs},
+		CommonAuthInfo: credentials.CommonAuthInfo{SecurityLevel: credentials.PrivacyAndIntegrity}}
+}
+
+// what the node's server credentials attach to the connection after the TLS handshake (mirror of
+// trustedPeerCredentials.ServerHandshake in cmd/neofs-node/mtls.go, package main): the plain
+// TLSInfo is kept unless peerauth.NewAuthInfo can bind the first peer certificate's key.
+func handshakeAuthInfo(info credentials.TLSInfo) credentials.AuthInfo {
+	if len(info.State.PeerCertificates) == 0 {
+		return info
+	}
+	trustedInfo, err := peerauth.NewAuthInfo(info)
+	if err != nil {
+		return info
+	}
+	return trustedInfo
+}
+
+func (e *peerEnv) ctx(kind string, a *actor) context.Context {
+	ctx := context.Background()
+	pk := a.key.PublicKey
+	real := peerauth.AuthInfo{TLSInfo: tlsInfo(e.certP256), PublicKey: (*keys.PublicKey)(&pk)}
+	var ai credentials.AuthInfo
+	switch kind {
+	case "none":
+		return ctx
+	case "no_auth":
+		ai = nil
+	case "other_auth":
+		ai = otherAuth{}
+	case "trusted":
+		ai = peerauth.AuthInfo{PublicKey: (*keys.PublicKey)(&pk)}
+	case "trusted_nokey":
+		ai = peerauth.AuthInfo{}
+	case "hs_p256":
+		ai = handshakeAuthInfo(tlsInfo(e.certP256))
+	case "hs_nocert":
+		ai = handshakeAuthInfo(tlsInfo())
+	case "hs_rsa":
+		ai = handshakeAuthInfo(tlsInfo(e.certRSA))
+	case "hs_p384":
+		ai = handshakeAuthInfo(tlsInfo(e.certP384))
+	case "hs_ed25519":
+		ai = handshakeAuthInfo(tlsInfo(e.certEd))
+	case "tls_p256_unbound":
+		ai = tlsInfo(e.certP256)
+	case "same_type_auth":
+		ai = sameTypeAuth{CommonAuthInfo: credentials.CommonAuthInfo{SecurityLevel: credentials.PrivacyAndIntegrity}, PublicKey: (*keys.PublicKey)(&pk)}
+	case "ptr_auth":
+		ai = &real
+	case "wrap_auth":
+		ai = wrapAuth{real}
+	default:
+		panic("unknown peer kind " + kind)
+	}
+	return peer.NewContext(ctx, &peer.Peer{AuthInfo: ai})
+}
+
+// deterministic part of the stream: every peer context x the request shapes on which the
+// exemption decision hinges (no verification header at TTL 0/1/2, API version current / legacy /
+// missing, no meta header at all; and the signed variants, intact and with a changed body, which
+// must be verified whoever the peer is)
+type forcedReq struct {
+	peer     string
+	ttl      uint32
+	ver      int // 0 current, 1 legacy, 2 missing
+	nl       int
+	noMeta   bool
+	unsigned bool
+	mut      string
+}
+
+func forcedMatrix() []forcedReq {
+	var res []forcedReq
+	for _, k := range peerKinds {
+		for _, ttl := range []uint32{1, 0, 2} {
+			for ver := 0; ver < 3; ver++ {
+				res = append(res, forcedReq{peer: k.name, ttl: ttl, ver: ver, nl: 1, unsigned: true})
+			}
+		}
+		res = append(res,
+			forcedReq{peer: k.name, ttl: 1, ver: 0, nl: 1, unsigned: true, noMeta: true},
+			forcedReq{peer: k.name, ttl: 1, ver: 0, nl: 1},
+			forcedReq{peer: k.name, ttl: 1, ver: 1, nl: 1},
+			forcedReq{peer: k.name, ttl: 1, ver: 1, nl: 2},
+			forcedReq{peer: k.name, ttl: 1, ver: 0, nl: 1, mut: "body_byte"},
+			forcedReq{peer: k.name, ttl: 1, ver: 1, nl: 1, mut: "sig_val"},
+			forcedReq{peer: k.name, ttl: 1, ver: 1, nl: 2, mut: "no_body_sig"},
+			forcedReq{peer: k.name, ttl: 1, ver: 0, nl: 1, mut: "no_meta_sig"},
+		)
+	}
+	return res
 }
 
 var reqMuts = []string{"body_byte", "meta_ttl", "meta_xhdr", "meta_origin", "sig_val", "sig_key", "sig_scheme", "drop_outer", "drop_inner", "drop_meta_layer",
@@ -332,10 +507,20 @@ func requestsMain(args []string) {
 		return b
 	}
 	cnrB, objB := addrBytes(), addrBytes()
+	penv := newPeerEnv(u.actors[1])
+	forced := forcedMatrix()
+	if len(args) > 1 && args[1] == "random-only" {
+		forced = nil
+	}
 
-	for i := 0; i < n; i++ {
+	for i := 0; i < n+len(forced); i++ {
 		w.n3reg = map[string]bool{}
 		var c reqCase
+		var f *forcedReq
+		if i < len(forced) {
+			f = &forced[i]
+			c.Forced = true
+		}
 		// API version: current (no chained origin signatures), legacy, or missing
 		var ver *refs.Version
 		switch x := g.n(10); {
@@ -348,13 +533,17 @@ func requestsMain(args []string) {
 		}
 		nl := 1 + g.n(3)
 		ttl := uint32(pick(g, []int{0, 1, 1, 2, 3, 5}))
+		if f != nil {
+			nl, ttl = f.nl, f.ttl
+			ver = []*refs.Version{{Major: 2, Minor: 25}, {Major: 2, Minor: 24}, nil}[f.ver]
+		}
 		req := &protoobject.DeleteRequest{Body: &protoobject.DeleteRequest_Body{Address: &refs.Address{
 			ContainerId: &refs.ContainerID{Value: slices.Clone(cnrB)}, ObjectId: &refs.ObjectID{Value: slices.Clone(objB)}}}}
-		if g.p(5) {
+		if f == nil && g.p(5) {
 			req.Body = nil
 		}
 		req.MetaHeader = &protosession.RequestMetaHeader{Version: ver, Ttl: ttl + uint32(nl) - 1}
-		if g.p(4) {
+		if (f == nil && g.p(4)) || (f != nil && f.noMeta) {
 			req.MetaHeader = nil
 			nl = 1
 		}
@@ -381,9 +570,17 @@ func requestsMain(args []string) {
 			}
 			req.VerifyHeader = vh
 		}
-		c.Peer = pick(g, []string{"none", "trusted", "trusted", "other_auth", "no_auth"})
-		ctx := peerCtx(c.Peer, u.actors[1])
-		c.Trusted = c.Peer == "trusted"
+		// random stream: a third of the requests from genuinely authenticated peers, the rest
+		// spread over all the look-alikes
+		pk := pick(g, peerKinds)
+		if g.p(25) {
+			pk = kindByName(pick(g, []string{"trusted", "hs_p256"}))
+		}
+		if f != nil {
+			pk = kindByName(f.peer)
+		}
+		c.Peer, c.Trusted = pk.name, pk.trusted
+		ctx := penv.ctx(c.Peer, u.actors[1])
 		accepted := func(r *protoobject.DeleteRequest) (bool, bool, bool, bool) {
 			e1 := icrypto.VerifyRequestSignatures(r)
 			e2 := icrypto.VerifyRequestSignaturesWithContext(ctx, r)
@@ -403,7 +600,18 @@ func requestsMain(args []string) {
 		p0, c0, n0, _ := accepted(req)
 		c.Base = p0 && c0 && n0
 		before, _ := proto.Marshal(req)
-		if g.p(60) {
+		if f != nil {
+			switch {
+			case f.unsigned:
+				c.Mut = "no_vh"
+				req.VerifyHeader = nil
+			case f.mut != "":
+				c.Mut = f.mut
+				req = mutateReq(g, u, req, c.Mut)
+				after, _ := proto.Marshal(req)
+				c.Changed = string(before) != string(after)
+			}
+		} else if g.p(60) {
 			c.Mut = pick(g, reqMuts)
 			if req = mutateReq(g, u, req, c.Mut); req == nil {
 				continue
